@@ -204,7 +204,17 @@ func runC11(c *mon.Ctx) {
 			sets := [][]gmsl.PDU{b1.list(), b2.list()}
 			var auth []gmsl.PDU
 			for _, key := range []stKey{{"m.room.create", ""}, {"m.room.power_levels", ""}, {"m.room.join_rules", ""}, {"m.room.member", creator}, {"m.room.member", victim}} {
-				if p := trunk.state[key]; p != nil {
+				p := trunk.state[key]
+				if key.Key == creator && key.Type == "m.room.member" {
+					// ... or, for the kicker's own key, one of the two candidates themselves (which may well be the winner)
+					switch sr.Intn(3) {
+					case 1:
+						p = b1.state[key]
+					case 2:
+						p = b2.state[key]
+					}
+				}
+				if p != nil {
 					auth = append(auth, p)
 				}
 			}
@@ -227,6 +237,77 @@ func runC11(c *mon.Ctx) {
 			})
 		}
 	}
+	// (A3) algorithms 2 / 2.1: a chain of power-level changes on one branch, two of them sent by a user whom the first of
+	// the chain promoted. Only the last is conflicted state; the others are in the auth difference, which the resolver
+	// walks in map order: every one of them has to be replayed, on every run
+	for _, ver := range versions {
+		t := ref.Traits(string(ver))
+		if t == nil || t.StateRes == 1 {
+			continue
+		}
+		for k := 0; k < c.Scale(24, 480); k++ {
+			sr := c.Rand(fmt.Sprintf("pl-chain-%s-%d", ver, k))
+			s, trunk := newSim(sr, ver)
+			creator, promoted := s.users[0], ""
+			for _, u := range s.users[1:] {
+				if s.membership(trunk, u) == "join" && u != creator {
+					promoted = u
+					break
+				}
+			}
+			if promoted == "" {
+				continue
+			}
+			a, b := trunk.clone(), trunk.clone()
+			users := func(extra string) *ref.Value {
+				u := ref.O(promoted, ref.I(50))
+				if !t.PrivCreators {
+					u.Set(creator, ref.I(100))
+				}
+				return ref.O("users", u, "state_default", ref.I(50), "events", ref.O("m.room.power_levels", ref.I(50)), "invite", ref.I(0), "kick", ref.I(50), "ban", ref.I(50), extra, ref.I(25))
+			}
+			ok := true
+			for i, step := range []struct{ sender, extra string }{{creator, "redact"}, {promoted, "events_default"}, {creator, "users_default"}, {promoted, "redact"}} {
+				if _, accepted := s.propose(a, "m.room.power_levels", strp(""), step.sender, users(step.extra), false); !accepted {
+					ok = false
+					_ = i
+					break
+				}
+			}
+			if !ok {
+				c.Count("pl_chain_scenarios_skipped")
+				continue
+			}
+			s.propose(b, "m.room.topic", strp(""), creator, ref.O("topic", ref.S("other branch")), false)
+			sets := [][]gmsl.PDU{a.list(), b.list()}
+			ids := make([]string, 0, len(s.all))
+			for id := range s.all {
+				ids = append(ids, id)
+			}
+			sort.Strings(ids)
+			var auth []gmsl.PDU
+			for _, id := range ids {
+				auth = append(auth, s.all[id])
+			}
+			c.Case("power-level-chain-in-auth-difference:"+string(ver), map[string]any{"version": ver, "promoted": promoted}, func() {
+				c.Nontrivial(fmt.Sprintf("plchain|%s|%d", ver, k))
+				seen := map[string]int{}
+				for i := 0; i < 60; i++ {
+					res, err := gmsl.ResolveConflictsNew(ver, sets, auth, userIDForSender, noRej)
+					if err != nil {
+						c.Failf("stateres:error", "%v", err)
+						return
+					}
+					seen[resultKey(res)]++
+					c.Count("resolutions")
+				}
+				c.Count("repeated_resolutions_with_a_power_level_chain")
+				if len(seen) > 1 {
+					c.Failf("order-dependence:alg2:run-to-run:power-level-chain-in-auth-difference", "v%s: 60 identical calls of ResolveConflictsNew (four power-level changes on one branch, the second and fourth by a user the first promoted) return %d different states: %v", ver, len(seen), seen)
+				}
+			})
+		}
+	}
 	// (B) per-shard scenarios: permutations, repeats, deprecated entry points, orderings
 	r := c.Rand("scenarios")
 	n := c.Scale(1200, 48000) / len(versions)
@@ -236,6 +317,27 @@ func runC11(c *mon.Ctx) {
 			sr := r.Fork("scenario")
 			sc := genScenario(sr, ver, 6)
 			pr := sr.Fork("perm")
+			if t.StateRes != 1 && sr.Chance(0.25) && len(sc.stateSets) >= 2 {
+				// state sets that are not fork tips (as after a merge): one set takes over another's event for some key, its
+				// own event for that key stays behind in the auth difference
+				i := sr.Intn(len(sc.stateSets))
+				j := (i + 1 + sr.Intn(len(sc.stateSets)-1)) % len(sc.stateSets)
+				from := map[stKey]gmsl.PDU{}
+				for _, p := range sc.stateSets[j] {
+					from[stKey{p.Type(), *p.StateKey()}] = p
+				}
+				mixed := append([]gmsl.PDU{}, sc.stateSets[i]...)
+				for _, idx := range sr.Perm(len(mixed)) {
+					p := mixed[idx]
+					if q := from[stKey{p.Type(), *p.StateKey()}]; q != nil && q.EventID() != p.EventID() && p.Type() != "m.room.create" {
+						mixed[idx] = q
+						break
+					}
+				}
+				sets := append([][]gmsl.PDU{}, sc.stateSets...)
+				sets[i] = mixed
+				sc.stateSets = sets
+			}
 			supplied := map[string]bool{}
 			for _, s := range sc.stateSets {
 				for _, p := range s {
